@@ -425,7 +425,7 @@ pub fn run(ctx: &Ctx, st: &mut Stats) {
     }
     st.mark_exhaustive("(f) applicability matrix: every token x every type", "43 token spellings x 12 probe values (2 per type) x 2 entry points");
     // (e) random composite pictures x random values of all types
-    let n = ctx.tier.pick(400, 600_000, 12_000_000);
+    let n = ctx.tier.pick(400, 600_000, ctx.big(12_000_000, 80_000_000));
     ctx.par(st, "(e) random composite pictures x random values, all six types", false, 0, n, |st, _, rng| {
         let ty = *rng.pick(&ALL_TY);
         let p = match rand_picture(st, rng, ty, true) {
